@@ -720,6 +720,18 @@ namespace vf
                if( got.message != wantmsg ) {
                   vs.push_back( { "C05", "raise-identity", "parse_error message '" + got.message + "', expected '" + wantmsg + "'" } );
                }
+               else if( want.msg.empty() && !( cf.mustif && !bn.mi_msg.empty() ) && bn.errmsg.empty() && !bn.cname.empty() ) {
+                  // the default message names the rule: compare with the type as written in the generated source (the expected
+                  // text above was produced by the library's own demangle<>(), which would agree with itself)
+                  static const std::string prefix = "parse error matching ";
+                  std::string named = got.message.rfind( prefix, 0 ) == 0 ? canonical_type_name( got.message.substr( prefix.size() ) ) : std::string();
+                  for( std::size_t k; ( k = named.find( " , void" ) ) != std::string::npos; ) {
+                     named.erase( k, 7 );  // defaulted template arguments (list< R, S, void >) are printed by the compiler but not written in the source
+                  }
+                  if( named != bn.cname ) {
+                     vs.push_back( { "C05", "raise-identity:rule-name", "parse_error message '" + got.message + "' does not name the blamed rule " + bn.cname + " (read as: " + named + ")" } );
+                  }
+               }
                if( got.nested != want.nested ) {
                   vs.push_back( { "C05", "raise-nestedness", std::string( "parse_error is " ) + ( got.nested ? "" : "not " ) + "nested, expected the opposite" } );
                }
